@@ -14,6 +14,9 @@ func TestProp(t *testing.T) { hx.Check(t, "graph", Gen, Exec) }
 // TestPropWaitList: what pip:run makes of --wait=... (recording runner).
 func TestPropWaitList(t *testing.T) { hx.Check(t, "waitlist", GenWL, ExecWL) }
 
+// TestPropNoSandbox: submissions whose sandbox cannot be provided, and later submissions waiting for them.
+func TestPropNoSandbox(t *testing.T) { hx.Check(t, "nosandbox", GenNS, ExecNS) }
+
 func TestReplay(t *testing.T) {
-	hx.Replay(t, map[string]func(json.RawMessage) (hx.Verdict, error){"graph": hx.Exec(Exec), "": hx.Exec(Exec), "waitlist": hx.Exec(ExecWL)})
+	hx.Replay(t, map[string]func(json.RawMessage) (hx.Verdict, error){"graph": hx.Exec(Exec), "": hx.Exec(Exec), "waitlist": hx.Exec(ExecWL), "nosandbox": hx.Exec(ExecNS)})
 }
